@@ -743,3 +743,9 @@ pub fn reset_screen() {
 		cs.clear().ok();
 	}
 }
+
+/// Verification hook (only compiled by kani-compiler): access to the private command interpretation.
+#[cfg(kani)]
+pub(crate) fn verif_interpret_command_args(args: &Args) -> Result<Arc<Command>> {
+	interpret_command_args(args)
+}
